@@ -30,6 +30,9 @@ TGrid == Is("Grid") /\ SetGrid(Log[l].d) /\ Adv
 TNew == Is("New") /\ NewGraph(Log[l].g, Log[l].ops, Log[l], l) /\ Adv
 TDrop == Is("Drop") /\ DropGraph(Log[l].g) /\ Adv
 TMask == Is("SetMask") /\ SetMask(Log[l].g, Log[l].m, Log[l].back, l) /\ Adv
+\* a call refused for its arguments (mask of another shape): an exception, and the object as it was
+TMaskBad == Is("SetMaskBad") /\ Log[l].g \in DOMAIN graphs
+            /\ Chk("RefusedCallThrows", l, Log[l].threw # "") /\ UNCHANGED fvars /\ Adv
 TBL == Is("SetBL") /\ SetBaseLevels(Log[l].g, Log[l].bl, Log[l].back, l) /\ Adv
 TParam == Is("SetParam") /\ SetParam(Log[l].g, Log[l].i, Log[l]) /\ Adv
 TUpdate == Is("Update") /\ UpdateRoutes(Log[l].g, Log[l], l) /\ Adv
@@ -46,7 +49,7 @@ TSnapM == Is("SnapMutate") /\ SnapMutate(Log[l].g, Log[l].name, Log[l].threw, l)
 TNoReturn == Is("NoReturn") /\ Diag /\ PrintT(<<"FAILED", "NoReturn", "line", l>>) /\ UNCHANGED fvars /\ Adv
 
 TraceInit == FInit /\ l = 1
-TraceNext == TReset \/ TGrid \/ TNew \/ TDrop \/ TMask \/ TBL \/ TParam \/ TUpdate \/ TAcc
+TraceNext == TReset \/ TGrid \/ TNew \/ TDrop \/ TMask \/ TMaskBad \/ TBL \/ TParam \/ TUpdate \/ TAcc
              \/ TBasins \/ TSnapG \/ TSnapE \/ TSnapM \/ TKernel \/ TSpl \/ TBGraph \/ TNoReturn
 TraceSpec == TraceInit /\ [][TraceNext]_tvars
 
